@@ -373,7 +373,7 @@ def _command_is_signed(command: SmtLibCommand) -> bool:
                     singed = arg[1]
                     if not isinstance(singed, bool):
                         raise PysmtValueError(":signed annotation to a command must be a bool, %s is not" % str(singed))
-                break
+                    break
     return singed
 
 
@@ -521,12 +521,12 @@ class InterpreterOMT(InterpreterSMT):
             return None
 
         elif cmd.name == smtcmd.MAXIMIZE:
-            g: Goal = MaximizationGoal(cmd.args[0])
+            g: Goal = MaximizationGoal(cmd.args[0], _command_is_signed(cmd))
             self.optimization_goals[0].append(g)
             return g
 
         elif cmd.name == smtcmd.MINIMIZE:
-            g = MinimizationGoal(cmd.args[0])
+            g = MinimizationGoal(cmd.args[0], _command_is_signed(cmd))
             self.optimization_goals[0].append(g)
             return g
 
@@ -573,17 +573,18 @@ class InterpreterOMT(InterpreterSMT):
             return rt
 
         elif cmd.name == smtcmd.MAXMIN:
-            g = MaxMinGoal(cmd.args[0])
+            g = MaxMinGoal(cmd.args[0], _command_is_signed(cmd))
             self.optimization_goals[0].append(g)
             return g
 
         elif cmd.name == smtcmd.MINMAX:
-            g = MinMaxGoal(cmd.args[0])
+            g = MinMaxGoal(cmd.args[0], _command_is_signed(cmd))
             self.optimization_goals[0].append(g)
             return g
 
         elif cmd.name == smtcmd.GET_OBJECTIVES:
-            return self.optimization_goals[1]
+            # a copy: the list is emptied and refilled by the next check-sat
+            return list(self.optimization_goals[1])
 
         else:
             return self._smt_evaluate(cmd, optimizer)
